@@ -179,6 +179,16 @@ func runG15(r *Repo, rep *Report) {
 							factsOf(is.Cond, true, out)
 						}
 					}
+				case *ast.CaseClause:
+					// the statements of a switch arm are a statement list like a block's
+					for _, s := range x.Body {
+						if s == child {
+							break
+						}
+						if is, ok := s.(*ast.IfStmt); ok && is.Else == nil && terminates(is.Body) {
+							factsOf(is.Cond, true, out)
+						}
+					}
 				case *ast.FuncLit:
 					return out
 				}
